@@ -93,6 +93,8 @@ def run(ctx):
                     if rng.random() < 0.12:
                         pert = setting[2] * 10 ** rng.choice([3, 4, 5])
                     cases.append(mk_case(rng, p, fam, setting, so, bits, pert))
+                    if rng.random() < 0.2:       # the same request with the coefficients in another container
+                        cases[-1]["container"] = rng.choice(["floatlist", "polynomial"])
                 cases.append(mk_case(rng, p, fam, setting, "Wz" if so == "Wx" else "Wx", None, None, npseed=rng.randrange(2 ** 31)))
         # marginally infeasible targets: sup |suc (p + eps/2 x^d)| just above 1, by less than a factor 1/suc^2 (a retry that rescales
         # again would slip through), and infeasible degree-1 targets (closed-form shortcuts)
